@@ -139,6 +139,15 @@ class C07(Prop):
             for _ in range(rng.randint(1, 2)):
                 read_steps.append(len(steps))
                 steps.append(self.read_call(rng, stack, keys))
+        if down is not None and len(down) == len(w["nodes"]) and rng.random() < 0.4:
+            # read-through fill: the application adds to the (empty) dict a failed multi-key read gave it, then
+            # reads again while the servers are still down - still a miss, not the application's own entries
+            steps.append({"t": "call", "m": rng.choice(["get_many", "gets_many"]), "a": [E(keys[:2])], "k": {}})
+            read_steps.append(len(steps) - 1)
+            steps.append({"t": "mutate", "ref": len(steps) - 1})
+            for _ in range(rng.randint(1, 2)):
+                read_steps.append(len(steps))
+                steps.append(self.read_call(rng, stack, keys))
         if down is not None:
             for i in down:
                 steps.append({"t": "node", "id": i, "health": "up"})
